@@ -27,7 +27,130 @@ INITS = {
     "A": (("db1", "s1"), (None, None), ["create schema db1.s2", "create database db2", "create schema db2.s1", "create table db1.s1.t (x int)"]),
     "B": (("db1", "s1"), ("db2", "s2"), []),
     "C": ((None, None), ("db1", "s1"), []),
+    # statement-shape product (see SHAPES): a table T with one distinguishing row in each of the four schemas
+    "S": (
+        ("db1", "s1"),
+        (None, None),
+        ["create schema db1.s2", "create database db2", "create schema db2.s1", "create schema db2.s2"]
+        + [f"create table {d}.{s_}.t (x int)" for d in ("db1", "db2") for s_ in ("s1", "s2")]
+        + [f"insert into db{d}.s{s_}.t values ({d}{s_})" for d in "12" for s_ in "12"],
+    ),
 }
+
+# ---- statement shapes ---------------------------------------------------------------------------------------------------
+# The property quantifies over "an unqualified or schema-qualified object name in ANY statement": the name may sit in
+# the plainest position (the only table of the statement) or in a CTE body, a derived table, a scalar / WHERE subquery,
+# the second table of a join, a UNION branch, the source of INSERT..SELECT / CTAS / MERGE, and next to the name of a
+# CTE (which is no table and needs no context). {A} / {B} are table references written at a qualification level.
+# name: (sql template, kind)   kind: rows = query whose result is compared, dml = effect compared through ground truth
+SHAPES = {
+    "plain": ("select x from {A}", "rows"),
+    "cte_body": ("with c as (select x from {A}) select x from c", "rows"),
+    "cte_chain": ("with c as (select x from {A}), d as (select x from c) select x from d", "rows"),
+    "cte_named_like_table": ("with t as (select x from {A}) select x from t", "rows"),
+    "derived_table": ("select q.x from (select x from {A}) q", "rows"),
+    "scalar_subquery": ("select (select max(x) from {A}) as x", "rows"),
+    "cte_then_join": ("with c as (select 1 as x) select c.x, b.x from c join {B} b on b.x > 0", "rows"),
+    "join_then_cte": ("with c as (select 1 as x) select a.x, c.x from {A} a join c on a.x > 0", "rows"),
+    "join": ("select a.x, b.x from {A} a join {B} b on b.x > 0", "rows"),
+    "comma_join": ("select a.x, b.x from {A} a, {B} b", "rows"),
+    "cte_body_join": ("with c as (select x from {A}) select c.x, b.x from c join {B} b on b.x > 0", "rows"),
+    "two_cte_bodies": ("with c as (select x from {A}), d as (select x from {B}) select c.x, d.x from c join d on d.x > 0", "rows"),
+    "where_subquery": ("select a.x from {A} a where a.x <= (select max(b.x) from {B} b)", "rows"),
+    "select_list_subquery": ("select a.x, (select max(b.x) from {B} b) from {A} a", "rows"),
+    "union": ("select x from {A} union all select x from {B}", "rows"),
+    "insert_select": ("insert into {A} (x) select {tag} from {B}", "dml"),
+    "insert_select_cte": ("insert into {A} (x) with c as (select x from {B}) select {tag} from c", "dml"),
+    "ctas": ("create table {U} as select x from {B}", "dml"),
+    "merge_using_table": ("merge into {A} as tgt using {B} as src on tgt.x = src.x when not matched then insert (x) values (src.x)", "dml"),
+    # no table at all: only a CTE name, also one spelled like the table
+    "cte_only": ("with c as (select 1 as x) select x from c", "rows"),
+    "cte_only_named_like_table": ("with t as (select 1 as x) select x from t", "rows"),
+}
+# syntactic role of {A} / {B}: main = first table of the outermost statement, joined = a later table of the outermost
+# statement (join, comma, UNION branch), target / source = of INSERT / CTAS / MERGE, nested = inside a CTE body, derived
+# table or subquery (nested2 = a second nested one, written after the first)
+SHAPE_ROLES = {
+    "plain": {"A": "main"},
+    "cte_body": {"A": "nested"},
+    "cte_chain": {"A": "nested"},
+    "cte_named_like_table": {"A": "nested"},
+    "derived_table": {"A": "nested"},
+    "scalar_subquery": {"A": "nested"},
+    "cte_then_join": {"B": "joined"},
+    "join_then_cte": {"A": "main"},
+    "join": {"A": "main", "B": "joined"},
+    "comma_join": {"A": "main", "B": "joined"},
+    "cte_body_join": {"A": "nested", "B": "joined"},
+    "two_cte_bodies": {"A": "nested", "B": "nested2"},
+    "where_subquery": {"A": "main", "B": "nested"},
+    "select_list_subquery": {"A": "main", "B": "nested"},
+    "union": {"A": "main", "B": "joined"},
+    "insert_select": {"A": "target", "B": "source"},
+    "insert_select_cte": {"A": "target", "B": "source"},
+    "ctas": {"A": "target", "B": "source"},
+    "merge_using_table": {"A": "target", "B": "source"},
+    "cte_only": {},
+    "cte_only_named_like_table": {},
+}
+# shapes whose outermost FROM holds the name of a CTE (no table: it needs no context)
+SHAPES_WITH_CTE_NAME_IN_FROM = ("cte_body", "cte_chain", "cte_named_like_table", "cte_then_join", "join_then_cte", "cte_body_join", "two_cte_bodies", "cte_only", "cte_only_named_like_table")
+# a table reference = (level, database, schema); level 0 = t, 1 = schema.t, 2 = database.schema.t
+REFS_QUICK = [(0, None, None), (1, None, "S2"), (2, "DB2", "S1")]
+REFS_THOROUGH = [(0, None, None), (1, None, "S1"), (1, None, "S2"), (2, "DB1", "S2"), (2, "DB2", "S1")]
+
+
+def shape_positions(shape):
+    t = SHAPES[shape][0]
+    return tuple(p for p in "AB" if "{" + p + "}" in t) if "{U}" not in t else ("A", "B")
+
+
+def shape_ops(tier):
+    refs = REFS_QUICK if tier == "quick" else REFS_THOROUGH
+    ops = []
+    for shape in SHAPES:
+        pos = shape_positions(shape)
+        if not pos:
+            ops.append(("query", shape, None, None))
+        elif len(pos) == 1:
+            for r in refs:
+                if shape == "cte_named_like_table" and r[0] == 0:
+                    continue  # a CTE reading the table it is named after: not demanded (rejected as recursive by some engines)
+                ops.append(("query", shape, r, None) if pos == ("A",) else ("query", shape, None, r))
+        else:
+            for ra in refs:
+                for rb in refs:
+                    ops.append(("query", shape, ra, rb))
+    return ops
+
+
+def ref_sql(r, name="t"):
+    return [name, f"{r[2]}.{name}", f"{r[1]}.{r[2]}.{name}"][r[0]].lower()
+
+
+# the ways a session reaches each kind of context: (driving connection, history); init S: c0 = (DB1, S1), c1 = none
+SHAPE_CONTEXTS = [
+    (0, []),  # full context from connect
+    (0, [(0, ("use_schema", "DB2", "S2"))]),
+    (0, [(0, ("use_schema", None, "S2"))]),
+    (0, [(0, ("use_db", "DB1"))]),  # database, schema as reported
+    (0, [(0, ("use_db", "DB2"))]),
+    (0, [(0, ("drop_schema", None, "S1"))]),  # current schema dropped: database without schema
+    # ... and a schema of that name made again by qualified names: the session still has no current schema
+    (0, [(0, ("drop_schema", None, "S1")), (0, ("create_schema", "DB1", "S1")), (0, ("create_table", 2, "DB1", "S1")), (0, ("insert", 2, "DB1", "S1"))]),
+    (0, [(0, ("reconnect", "DB1", None))]),  # connected with a database only
+    (1, []),  # no database
+    (1, [(1, ("use_db", "DB1"))]),
+    (1, [(1, ("use_schema", "DB1", "S2"))]),
+    (1, [(0, ("use_db", "DB2"))]),  # the other connection's context must not matter
+    (0, [(1, ("use_schema", "DB2", "S2"))]),
+]
+SHAPE_CONTEXTS_THOROUGH = [
+    (1, [(1, ("use_schema", "DB1", "S2")), (1, ("drop_schema", None, "S2"))]),
+    (1, [(1, ("reconnect", "DB2", None))]),
+    (0, [(0, ("reconnect", None, None))]),
+    (0, [(0, ("use_db", "DB2")), (0, ("use_schema", None, "S1"))]),
+]
 
 
 def tname(level, d, s):
@@ -105,6 +228,9 @@ def op_sql(op, tag):
         return f"show terse schemas in database {op[1].lower()}"
     if k == "select_information_schema_q":
         return f"select count(*) from {op[1].lower()}.information_schema.tables"
+    if k == "query":
+        tmpl = SHAPES[op[1]][0]
+        return tmpl.format(A=op[2] and ref_sql(op[2]), B=op[3] and ref_sql(op[3]), U=op[2] and ref_sql(op[2], "u"), tag=tag)
     if k == "create_db":
         return f"create database {op[1].lower()}"
     if k == "drop_db":
@@ -261,6 +387,8 @@ class Model:
                 return ("err", None)
             self.ctx[c] = [op[1], "?"]
             return ("ok_free_schema",)
+        if k == "query":
+            return self.query(c, op, tag)
         level, d, s = op[1:4]
         r = self.resolve(c, level, d, s)
         if r[0] == "err":
@@ -297,6 +425,66 @@ class Model:
         if k == "select":
             return ("ok", [(x,) for x in sorted(objs["T"][1])])
         raise AssertionError(op)
+
+
+    def query(self, c, op, tag):
+        """A statement of SHAPES. Every table reference is resolved on its own; the statement needs a current database
+        if ANY reference is not fully qualified and a current schema if ANY reference is unqualified (a missing
+        database is reported first, as for a single reference). CTE names are not references."""
+        _, shape, ra, rb = op
+        kind = SHAPES[shape][1]
+        refs = [r for r in (ra, rb) if r is not None]
+        res = [self.resolve(c, *r) for r in refs]
+        for want in (90105, 90106):
+            if any(r == ("err", want) for r in res):
+                return ("err", want)
+        if any(r[0] == "err" for r in res):
+            return ("err", None)
+        loc = {p: self.cat[r[1]][r[2]] for p, r in zip([p for p, x in (("A", ra), ("B", rb)) if x is not None], res)}
+        if shape == "ctas":
+            if "U" in loc["A"] or "T" not in loc["B"]:
+                return ("err", None)
+            loc["A"]["U"] = ("table", list(loc["B"]["T"][1]))
+            return ("ok", None)
+        if any("T" not in o for o in loc.values()):
+            return ("err", None)
+        a = loc["A"]["T"][1] if "A" in loc else None
+        b = loc["B"]["T"][1] if "B" in loc else None
+        if kind == "rows":
+            return ("ok", sorted(shape_rows(shape, a, b), key=repr))
+        if shape in ("insert_select", "insert_select_cte"):
+            a.extend([tag] * len(b))
+        elif shape == "merge_using_table":
+            a.extend([x for x in list(b) if x not in a])
+        else:
+            raise AssertionError(shape)
+        return ("ok", None)
+
+
+def shape_rows(shape, a, b):
+    """Result (a multiset of tuples) of the query shape over a = rows of {A}, b = rows of {B} (lists of ints)."""
+    mx = lambda v: max(v) if v else None  # noqa: E731
+    if shape in ("plain", "cte_body", "cte_chain", "cte_named_like_table", "derived_table"):
+        return [(x,) for x in a]
+    if shape == "scalar_subquery":
+        return [(mx(a),)]
+    if shape == "cte_then_join":
+        return [(1, y) for y in b if y > 0]
+    if shape == "join_then_cte":
+        return [(x, 1) for x in a if x > 0]
+    if shape in ("join", "cte_body_join", "two_cte_bodies"):
+        return [(x, y) for x in a for y in b if y > 0]
+    if shape == "comma_join":
+        return [(x, y) for x in a for y in b]
+    if shape == "where_subquery":
+        return [(x,) for x in a if b and x <= mx(b)]
+    if shape == "select_list_subquery":
+        return [(x, mx(b)) for x in a]
+    if shape == "union":
+        return [(x,) for x in a] + [(x,) for x in b]
+    if shape in ("cte_only", "cte_only_named_like_table"):
+        return [(1,)]
+    raise AssertionError(shape)
 
 
 # ---- real side ----------------------------------------------------------------------------------------------------------
@@ -362,6 +550,9 @@ def build(init, hist):
         elif w[1] == "table":
             d, sc, t = w[2].upper().split(".")
             m.cat[d][sc][t] = ("table", [])
+        elif w[0] == "insert":
+            d, sc, t = w[2].upper().split(".")
+            m.cat[d][sc][t][1].append(int(w[4].strip("()")))
     tag = 100
     for c, op in hist:
         tag += 1
@@ -388,6 +579,7 @@ def ctx_kind(ctx):
 
 
 GROUP = 6
+SHAPE_GROUP = 10
 
 
 class _Done(Exception):
@@ -441,6 +633,8 @@ def one_transition(init, hist, c, op, live, acc, tier):
         cur = conns[c]._verif_cur  # noqa: SLF001
         cur.execute(sql)
         rows = cur.fetchall() if op[0] in ("select", "describe", "show_schemas", "show_tables_in_database", "show_tables_in_schema", "show_tables_in_schema_q", "show_schemas_in_database_q") else None
+        if op[0] == "query" and SHAPES[op[1]][1] == "rows":
+            rows = sorted((tuple(r) for r in cur.fetchall()), key=repr)
         if op[0] == "describe":
             rows = [r[0] for r in rows]
         elif op[0] in ("show_schemas", "show_schemas_in_database_q"):
@@ -473,6 +667,19 @@ def judge(init, hist, c, op, acc, m, m_pre, exp, got, sql, pre_model_key, pre_ct
         + (f",level={op[1]}" if len(op) > 1 and isinstance(op[1], int) else (",qualified" if len(op) > 2 and op[1] else ""))
         + f",ctx={ctx_kind(pre_ctx[c])}"
     )
+    if op[0] == "query":
+        # class = the syntactic role of the references that lack their context and of those that have it (one root
+        # cause - e.g. "only the first table is looked at" - is one class whatever the shape and the levels)
+        cd, cs = pre_ctx[c]
+        refs = [(SHAPE_ROLES[op[1]][p], r) for p, r in (("A", op[2]), ("B", op[3])) if r is not None]
+        lacks = [role for role, r in refs if (cd is None and r[0] < 2) or (cs is None and r[0] == 0)]
+        has = [role for role, r in refs if role not in lacks]
+        beside_cte = ",beside_cte_name" if op[1] in SHAPES_WITH_CTE_NAME_IN_FROM else ""
+        recreated = any(o[0] == "create_schema" for _c, o in hist) and any(o[0] == "drop_schema" for _c, o in hist)
+        base = (
+            f"op=query,lacking={'+'.join(lacks) or '-'},having={'+'.join(has) or '-'}{beside_cte}"
+            f",ctx={ctx_kind(pre_ctx[c])}{'(dropped schema made again)' if recreated else ''}"
+        )
     if op[0] == "reconnect":
         pre_cat_m = m_pre.cat
         base = (
@@ -603,6 +810,13 @@ def run(ctx: core.Ctx):
                 extra.append(("A", [(0, ("create_table", 2, "DB2", "S1")), (0, ("create_table", 2, "DB1", "S2")), (0, o), (0, sw)], 0, [o]))
     ctx.pmap(expand, extra, recheck=False)
     ctx.extra["same_text_other_context_histories"] = len(extra)
+    # statement shapes x qualification levels of every table reference x ways of reaching each kind of session context
+    sops = shape_ops(ctx.tier)
+    sops.sort(key=lambda o: SHAPES[o[1]][1] == "dml")  # the read-only ones first: they share an instance
+    contexts = SHAPE_CONTEXTS + ([] if ctx.quick else SHAPE_CONTEXTS_THOROUGH)
+    shape_items = [("S", h, c, sops[i : i + SHAPE_GROUP]) for c, h in contexts for i in range(0, len(sops), SHAPE_GROUP)]
+    ctx.pmap(expand, shape_items, recheck=False)
+    ctx.extra["statement_shapes"] = {"shapes": len(SHAPES), "statements_per_context": len(sops), "contexts": len(contexts)}
     for s in seen:
         ctx.acc.add("states", s)
     ctx.extra["bound"] = "quick: init A depth 3 (connection 0 drives, connection 1 observed), B/C depth 1; thorough: A depth 3 both connections, B/C depth 2"
